@@ -66,6 +66,8 @@ impl Profile {
             "reclaim" => Profile::Reclaim,
             "multi" => Profile::Multi,
             "soak" => Profile::Soak,
+            // the pacing profile with decimal (non-dyadic) factors: `Gen::decimal`
+            "decimal" => Profile::Pacing,
             _ => return None,
         })
     }
@@ -88,6 +90,9 @@ pub struct Gen {
     /// the multi-step "move a shell's weak pointer into a black holder mid-mark" script:
     /// (stage, arena, b, a, t)
     shell_script: Option<(u8, usize, u32, u32, u32)>,
+    /// decimal (non-dyadic) pacing factors, incl. `Pacing::DEFAULT` and `STOP_THE_WORLD`: the
+    /// model's exact rationals then differ from f64 by rounding, compared with a tolerance (`odt`)
+    pub decimal: bool,
 }
 
 /// `x` as an exact dyadic rational, if it is one with a small denominator.
@@ -109,10 +114,27 @@ impl Gen {
     pub fn new(seed: u64, profile: Profile, max_ops: usize) -> Gen {
         let mut rng = Rng(seed);
         let narenas = if profile == Profile::Multi { 2 + rng.below(2) } else { 1 };
-        Gen { rng, profile, max_ops, emitted: 0, queue: VecDeque::new(), cb_stack: vec![], narenas, finishing: 0, done: false, want_reclaim: false, soak_prev: None, soak_pacing: None, shell_script: None }
+        Gen { rng, profile, max_ops, emitted: 0, queue: VecDeque::new(), cb_stack: vec![], narenas, finishing: 0, done: false, want_reclaim: false, soak_prev: None, soak_pacing: None, shell_script: None, decimal: false }
     }
 
     fn pacing(&mut self) -> PacingSpec {
+        if self.decimal {
+            let q = |n: i64, d: u64| Dy::ratio(n, d);
+            let ms = [0usize, 1, 2, 4, 16, 64, 256][self.rng.below(7)];
+            return match self.rng.below(6) {
+                // Pacing::DEFAULT (src/metrics.rs), with a min_sleep that lets short sequences wake
+                0 | 1 => PacingSpec { sleep: q(1, 2), min_sleep: ms, mark: q(1, 10), trace: q(2, 5), keep: q(1, 20), drop: q(1, 5), free: q(3, 10) },
+                // Pacing::STOP_THE_WORLD
+                2 => PacingSpec { sleep: q(1, 1), min_sleep: ms, mark: q(0, 1), trace: q(0, 1), keep: q(0, 1), drop: q(0, 1), free: q(0, 1) },
+                // thirds and sevenths
+                3 => PacingSpec { sleep: q(1, 3), min_sleep: ms, mark: q(1, 7), trace: q(2, 7), keep: q(1, 21), drop: q(1, 3), free: q(1, 3) },
+                // random hundredths
+                _ => {
+                    let mut f = || Dy::ratio(self.rng.below(101) as i64, 100);
+                    PacingSpec { sleep: f(), min_sleep: ms, mark: f(), trace: f(), keep: f(), drop: f(), free: f() }
+                }
+            };
+        }
         let fam = match self.profile {
             Profile::Pacing | Profile::Protocol | Profile::Metrics => self.rng.below(6),
             _ => self.rng.below(4),
